@@ -196,6 +196,9 @@ def lane_facts(ctx, source, family, groups, cfg_filter=None, extra_defs=(), args
         judged, rejected = facts.validate(m, ctx.scratch, '%s_g%s' % (family, g), module=module, env_extra=env_extra)
         total_judged += judged
         ctx.ev['facts_judged_by_tlc'] += judged
+        nhw = sum(1 for ln in m.lines if '"hw":' in ln)
+        if nhw:
+            ctx.ev['events_observed_by_hardware_watchpoints'] = ctx.ev.get('events_observed_by_hardware_watchpoints', 0) + nhw
         ctx.ev['states'] += judged + 1          # one state of the trace machine per consumed fact
         ctx.ev['transitions'] += judged + 1
         ctx.ev['driver_outputs'] += len(m.files)
